@@ -5,7 +5,7 @@
    and run_modes.skip.process_outputs by the C12 correspondence streams. *)
 From Coq Require Import List Bool Arith.
 From Cylc Require Import Base.Util Model.BExpr Model.Completion Model.OptOutputs
-  Proofs.BExprProofs Proofs.OptOutputsProofs.
+  Proofs.BExprProofs Proofs.CompletionProofs Proofs.OptOutputsProofs.
 Import ListNotations.
 
 (* "For any valid completion expression, an output is classified required
@@ -131,6 +131,18 @@ Theorem c12_skip_contains_required_partial : forall e outs l o,
   In o outs -> classify (Some e) outs None o = Opt false ->
   o <> FAILED -> In o l.
 Proof. exact skip_default_contains_required. Qed.
+
+(* Link with C11: when the task has no user expression, every output that the
+   GRAPH marks required (other than succeeded/failed) is generated by default
+   skip mode — even when success is optional and the default expression
+   "(x and succeeded) or failed" therefore classifies x as optional; this is
+   what the `disable` argument is for. *)
+Theorem c12_skip_default_expr_contains_graph_required : forall (t : tdef) e l o,
+  In SUCCEEDED (map fst t) -> In FAILED (map fst t) ->
+  default_expr t = Some e ->
+  skip_outputs (Some e) (map fst t) [] = Some l ->
+  In o (required t) -> o <> SUCCEEDED -> o <> FAILED -> In o l.
+Proof. exact skip_default_graph_required. Qed.
 
 Theorem c12_skip_defined : forall e outs conf,
   valid e outs -> exists l, skip_outputs (Some e) outs conf = Some l.
